@@ -313,17 +313,83 @@ pub fn scenario(r: &mut Report, p: &Params) {
     }
 }
 
+/// Blackout: every peer including the bootstrap node goes away long enough for the table to
+/// drain; then the bootstrap node comes back (same address, new id) between two refreshes.
+/// A node whose table is empty re-bootstraps at once, so the table must not stay empty.
+pub fn blackout_scenario(r: &mut Report, seed: u64) {
+    r.eval();
+    let mut rng = Rng::new(seed);
+    let w = World::with_cfg(seed, NetCfg::default(), TraceLevel::Off);
+    let case = json!({"class":"blackout","seed":seed.to_string()});
+    let plan = [IpPlan::Private, IpPlan::PublicSecure][rng.usize(2)];
+    let n = 2 + rng.usize(4);
+    let mut net = build_net(&w, n, 0, plan, false, &mut rng);
+    let boot_ip = *net.boot.ip();
+    let x = w.spawn(if rng.bool() { NodeSpec::server(Ipv4Addr::new(10, 77, 0, 1), &[net.boot]) } else { NodeSpec::client(Ipv4Addr::new(10, 77, 0, 1), &[net.boot]) }).expect("x");
+    w.block_on(x.adht.bootstrapped(), 60 * SEC);
+    w.run_for(rng.range(30, 200) * SEC);
+    // everybody else disappears
+    for node in net.nodes.drain(..) {
+        w.crash(node);
+    }
+    let outage = 21 * MIN + rng.below(9 * MIN);
+    w.run_for(outage);
+    let drained = w.block_on(x.adht.to_bootstrap(), 5 * SEC).map(|t| t.is_empty()).unwrap_or(false);
+    // the bootstrap node returns on its old address
+    let mut spec = NodeSpec::server(boot_ip, &[]);
+    if plan == IpPlan::PublicSecure {
+        spec.public_ip = Some(boot_ip);
+    }
+    let back = w.spawn(spec).expect("bootstrap node restarts");
+    let t_back = w.now();
+    let mut empty_samples = 0;
+    let mut recovered_after = None;
+    for k in 1..=8u64 {
+        w.run_to(t_back + k * 30 * SEC);
+        let tb = w.block_on(x.adht.to_bootstrap(), 5 * SEC).unwrap_or_default();
+        if tb.is_empty() {
+            empty_samples += 1;
+        } else if recovered_after.is_none() {
+            recovered_after = Some(k * 30);
+        }
+    }
+    if drained {
+        r.count("blackouts_with_drained_table");
+        r.nontrivial(mix(seed, outage));
+        // two consecutive samples (> 30 s) with an empty table while the bootstrap node is reachable
+        if recovered_after.map(|s| s > 90).unwrap_or(true) {
+            r.violation("health/table-stays-empty/after-blackout", "the table stayed empty for more than 90 s although the bootstrap node is reachable again", case.clone(), json!({"outage_min": outage / MIN, "empty_samples": empty_samples, "recovered_after_s": recovered_after}));
+        }
+    } else {
+        r.count("blackouts_table_not_drained");
+    }
+    drop(back);
+    drop(x);
+    for (thread, loc, msg) in crate::take_panics() {
+        r.violation(&format!("panic/{loc}"), &format!("thread {thread} panicked: {msg}"), case.clone(), json!({}));
+    }
+}
+
 pub fn run(a: &Args) -> Report {
     let mut r = Report::new("C14");
     if let Some(path) = &a.replay {
         let v: Value = serde_json::from_str(&std::fs::read_to_string(path).unwrap_or_default()).unwrap_or_default();
         let c = &v["case"];
+        if c["class"] == "blackout" {
+            blackout_scenario(&mut r, c["seed"].as_str().and_then(|s| s.parse().ok()).unwrap_or(1));
+            return r;
+        }
         let g = |k: &str| c[k].as_u64().unwrap_or(0);
         scenario(&mut r, &Params { seed: c["seed"].as_str().and_then(|s| s.parse().ok()).unwrap_or(1), servers: g("servers") as usize, clients: g("clients") as usize, plan: g("plan") as usize, hours_x10: g("hours_x10"), churn: g("churn") as usize, api_lookups: c["api_lookups"].as_bool().unwrap_or(false) });
         return r;
     }
     let n = (if a.quick() { 48 } else { 640 }) / a.nshards.max(1);
     let mut rng = Rng::new(mix(a.seed, 0xc14 + a.shard));
+    for _ in 0..(if a.quick() { 64 } else { 1600 }) / a.nshards.max(1) {
+        let s = rng.u64();
+        super::guarded(&mut r, json!({"class":"blackout","seed":s.to_string()}), |r| blackout_scenario(r, s));
+        r.count("blackout_scenarios");
+    }
     for _ in 0..n {
         let p = Params {
             seed: rng.u64(),
